@@ -311,6 +311,19 @@ class Driver:
         return results
 
 
+def excerpt(info, n=1800):
+    """the informative part of a crash record: from the sanitizer's ERROR line on"""
+    if not info:
+        return ''
+    i = info.find('ERROR:')
+    if i < 0:
+        i = info.find('runtime error')
+    if i < 0:
+        return info[-n:]
+    head = info[:info.find('\n')] if '\n' in info else ''
+    return (head + '\n' + info[max(0, i - 12):i + n]).strip()
+
+
 def sanitizer_summary(info):
     """short, stable description of a crash: error class + first library frame"""
     if not info:
